@@ -866,3 +866,44 @@ fn tuple_len_replay() {
         println!("OBSERVED: {}", bad.join("; "));
     }
 }
+
+// ---------------------------------------------------------------------------------------------
+// E3t replay (C04): the value being boxed survives the collection that its own allocation triggers.  13000 live
+// pairs (box (box i)) cross the 95 % line of the initial 25600-slot box space once, with everything alive, so a full
+// collection runs inside one of the outer `box` calls while the inner box is reachable only as that call's argument;
+// then 60000 short-lived boxes hand every free slot out again.  Run for both parities of the slot cursor.
+#[test]
+fn alloc_roots_replay() {
+    let mut bad = Vec::new();
+    for shift in [0usize, 1] {
+        let mut engine = Engine::new();
+        let program = format!(
+            r#"
+            (define parity-shift (map (lambda (i) (box i)) (range 0 {shift})))
+            (define keep '())
+            (define (fill! n) (let loop ((i 0)) (when (< i n) (set! keep (cons (#%box (#%box i)) keep)) (loop (+ i 1)))))
+            (define (churn! n) (let loop ((i 0)) (when (< i n) (#%box 'junk) (loop (+ i 1)))))
+            (define (count-damaged lst expected acc)
+              (if (null? lst) acc (count-damaged (cdr lst) (- expected 1) (if (equal? (unbox (unbox (car lst))) expected) acc (+ acc 1)))))
+            (fill! 13000)
+            (churn! 60000)
+            (count-damaged keep 12999 0)
+            "#,
+            shift = shift
+        );
+        match engine.run(program) {
+            Ok(vals) => {
+                let got = vals.last().map(|v| v.to_string()).unwrap_or_default();
+                if got != "0" {
+                    bad.push(format!("{} of 13000 reachable inner boxes lost their contents (cursor parity {})", got, shift));
+                }
+            }
+            Err(e) => bad.push(format!("reading a reachable inner box failed: {}", e.to_string().chars().take(120).collect::<String>())),
+        }
+    }
+    if bad.is_empty() {
+        println!("COMPLETED: every inner box kept its contents");
+    } else {
+        println!("OBSERVED: {}", bad.join("; "));
+    }
+}
